@@ -224,6 +224,12 @@ func (g *Generator) ParseFormula(e ast.Expr) (Formula, error) {
 	return nil, fmt.Errorf("expression form not in the option-predicate language: %s", types.ExprString(e))
 }
 
+// And, Or, Not and Const build formulas for callers outside this package.
+func And(a, b Formula) Formula { return fAnd{a, b} }
+func Or(a, b Formula) Formula  { return fOr{a, b} }
+func Not(a Formula) Formula    { return fNot{a} }
+func Const(v bool) Formula     { return fConst{v} }
+
 // FuncDecl finds a package-level function of the generator by name.
 func (g *Generator) FuncDecl(name string) *ast.FuncDecl { return g.funcDecl(name) }
 
